@@ -8,6 +8,7 @@ import (
 	"encoding/hex"
 	"fmt"
 	"math/rand"
+	"os"
 	"strconv"
 	"strings"
 )
@@ -17,6 +18,7 @@ type pgen struct {
 	rng   *rand.Rand
 	tier  string
 	only  string
+	fixed map[string]bool // operators whose regenerated table row is the repaired one (set by tools/checks/C18.py)
 }
 
 func (g *pgen) add(op, p, in string, kv ...string) {
@@ -32,6 +34,9 @@ func (g *pgen) add(op, p, in string, kv ...string) {
 	}
 	if !has {
 		all = append(all, "end", "C")
+	}
+	if g.fixed[op] {
+		all = append(all, "model", "fixed") // the Lean driver answers with the repaired model (ellipsisBFixed, ioReaderFixed)
 	}
 	g.cases = append(g.cases, newCase(len(g.cases)+1, all...))
 }
@@ -74,12 +79,12 @@ var textCorpus = []string{
 
 func bigTexts() []string {
 	return []string{
-		"6162*32768",           // 64 KiB "abab…"
-		"20*65536",             // 64 KiB of spaces
-		"616220*21846",         // "ab ab ab …"
+		"6162*32768",                // 64 KiB "abab…"
+		"20*65536",                  // 64 KiB of spaces
+		"616220*21846",              // "ab ab ab …"
 		"48656c6c6f576f726c64*6554", // HelloWorld × 6554 = 64 KiB
 		"20*10+c3a9*32768+20*10",    // 64 KiB of é with spaces around
-		"ff*65536",             // 64 KiB of invalid UTF-8
+		"ff*65536",                  // 64 KiB of invalid UTF-8
 		"61*1023", "61*1024", "61*1025", "20+61*1024+20",
 	}
 }
@@ -132,7 +137,12 @@ func chunked(all []string, k int) [][]string {
 }
 
 func genPluginCases(tier string, seed int64, only string) []*Case {
-	g := &pgen{rng: rand.New(rand.NewSource(seed*7919 + 18)), tier: tier, only: only}
+	g := &pgen{rng: rand.New(rand.NewSource(seed*7919 + 18)), tier: tier, only: only, fixed: map[string]bool{}}
+	for _, op := range strings.Split(os.Getenv("VERIF_C18_FIXED"), ",") {
+		if op != "" {
+			g.fixed[op] = true
+		}
+	}
 	g.genStrconv()
 	g.genBase64()
 	g.genText()
@@ -274,7 +284,7 @@ func (g *pgen) genStrconv() {
 		g.add("strconv.Unquote", "-", hxs(s))
 	}
 	g.add("strconv.Unquote", "-", hxs(`"a"`, "`b`", `bad`, `"c"`))
-	for i := 0; i < g.n(150, 4000); i++ {
+	for i := 0; i < g.n(600, 6000); i++ {
 		k := g.rng.Intn(4) + 1
 		items := make([]string, k)
 		for j := range items {
@@ -350,7 +360,7 @@ func (g *pgen) genBase64() {
 		g.add("base64.Decode", e, "414141410a*13107")
 	}
 	alphabet := "ABCDEFGHIJKLMNOPQRSTUVWXYZabcdefghijklmnopqrstuvwxyz0123456789+/-_=\n\r !"
-	for i := 0; i < g.n(250, 6000); i++ {
+	for i := 0; i < g.n(1000, 10000); i++ {
 		e := b64names[g.rng.Intn(4)]
 		k := g.rng.Intn(3) + 1
 		items := make([][]byte, k)
@@ -447,7 +457,7 @@ func (g *pgen) genText() {
 			g.add("bytes.Random", fmt.Sprintf("%d,%s", sz, hx(cs)), hxs("a", "b"))
 		}
 	}
-	for i := 0; i < g.n(250, 8000); i++ {
+	for i := 0; i < g.n(1000, 12000); i++ {
 		k := g.rng.Intn(3) + 1
 		items := make([]string, k)
 		for j := range items {
@@ -605,7 +615,7 @@ func (g *pgen) genJSONGob() {
 	}
 	g.add("gob.Decode", "-", "ff*65536")
 	g.add("gob.Decode", "-", "00*65536")
-	for i := 0; i < g.n(60, 1500); i++ {
+	for i := 0; i < g.n(250, 2500); i++ {
 		b := g.randBytes(g.rng.Intn(60))
 		g.add("gob.Decode", "-", itemExpr(b))
 		g.add("json.UnmarshalAny", "-", itemExpr(b))
@@ -665,7 +675,7 @@ func (g *pgen) genSort() {
 		g.add(op, "bykey", hxs(eq[:12]...))
 		g.add(op, "bykey", hxs(eq[:13]...))
 	}
-	for i := 0; i < g.n(120, 4000); i++ {
+	for i := 0; i < g.n(400, 6000); i++ {
 		n := g.rng.Intn(30)
 		if g.rng.Intn(4) == 0 {
 			n = 11 + g.rng.Intn(4)
@@ -712,7 +722,7 @@ func (g *pgen) genReaders() {
 	}
 	g.add("stdio.NewIOReader", "1024.1024.5", "61*1024+62*1024+63*5", "fin", "eof")
 	g.add("stdio.NewIOReader", "1024.1", "61*1024+62", "fin", "dataeof")
-	for i := 0; i < g.n(60, 2000); i++ {
+	for i := 0; i < g.n(300, 3000); i++ {
 		k := g.rng.Intn(5) + 1
 		var plan []string
 		var data []byte
@@ -737,7 +747,7 @@ func (g *pgen) genReaders() {
 	for _, big := range []string{"61*4095+0a+62", "61*4096+0a+62", "61*4097+0a+62", "61*4095+0d0a+62", "61*4096+0d0a", "61*8192", "61*65536", "610a*32768", "61*4095+0d", "0a*5000", "61*4094+0d0d0a+62"} {
 		g.add("stdio.NewIOReaderLine", "-", big)
 	}
-	for i := 0; i < g.n(60, 2000); i++ {
+	for i := 0; i < g.n(300, 3000); i++ {
 		n := g.rng.Intn(40)
 		b := make([]byte, n)
 		for j := range b {
@@ -755,7 +765,7 @@ func (g *pgen) genWriters() {
 		}
 		g.add("stdio.NewIOWriter", "ok", in, "end", "E2")
 	}
-	for i := 0; i < g.n(40, 1000); i++ {
+	for i := 0; i < g.n(150, 1500); i++ {
 		k := g.rng.Intn(5)
 		items := make([][]byte, k)
 		for j := range items {
@@ -784,7 +794,7 @@ func (g *pgen) genCSV() {
 		}
 		g.add("csv.NewCSVWriter", "ok,0", in, "end", "E3")
 	}
-	for i := 0; i < g.n(40, 1000); i++ {
+	for i := 0; i < g.n(150, 1500); i++ {
 		var sb strings.Builder
 		n := g.rng.Intn(30)
 		for j := 0; j < n; j++ {
